@@ -127,12 +127,18 @@ theorem zip_keys (g : Val → Val) (c : List Val) :
     simp only [List.map_cons, List.zipWith_cons_cons, List.cons.injEq, true_and]
     exact ih
 
+/-- an element-wise chunk function keeps the chunk length, so the length assertion never fires -/
+theorem rekeyChunk_map (g : Val → Val) (c : List Val) :
+    rekeyChunk c ((c.map Val.value).map g) = c.map (fun r => .pair r.key (g r.value)) := by
+  unfold rekeyChunk
+  rw [if_pos (by simp), zip_keys]
+
 theorem batchValues_elementwise (n : Nat) (hn : 1 ≤ n) (g : Val → Val) (rows : List Val) :
     (chunks n rows).flatMap
-        (fun c => List.zipWith (fun r o => Val.pair r.key o) c ((c.map Val.value).map g))
+        (fun c => rekeyChunk c ((c.map Val.value).map g))
       = rows.map (fun r => .pair r.key (g r.value)) := by
   have h := chunksOf_flatten n hn rows.length rows (Nat.le_refl _)
-  simp only [zip_keys]
+  simp only [rekeyChunk_map]
   rw [List.flatMap_def, ← List.map_flatten]
   unfold chunks
   rw [h]
